@@ -3,7 +3,7 @@
    L1 = VLog.v (key table + append-only value log with old links: the mechanism shared by ART and RBT). *)
 From Verif Require Import MemBuf.Model MemBuf.Art MemBuf.ProofsArt MemBuf.ProofsArtIns MemBuf.ProofsArtIns2
   MemBuf.ProofsArtMap MemBuf.ProofsArtL1 MemBuf.ProofsArtSeek MemBuf.ProofsArtRange MemBuf.Batched MemBuf.ProofsBatched MemBuf.ProofsBatchedL0 MemBuf.ProofsSeq MemBuf.BatchedUse MemBuf.FlagPreds MemBuf.ProofsFlagDom MemBuf.ProofsKMap MemBuf.ProofsLog MemBuf.ProofsSim MemBuf.ProofsObs
-  MemBuf.ProofsSet MemBuf.ProofsRevert MemBuf.ProofsStep MemBuf.ProofsProps MemBuf.ProofsTop.
+  MemBuf.ProofsSet MemBuf.ProofsRevert MemBuf.ProofsStep MemBuf.ProofsProps MemBuf.ProofsRevertCp MemBuf.ProofsTop.
 
 (* 1. Refinement.  Over ALL operation sequences — mutators and observers, valid and invalid handles /
    tokens, reverts to ANY live checkpoint (taken inside or outside staging levels, older than a released
@@ -28,12 +28,28 @@ Theorem C08_step_commutes :
 Proof. exact step_sim. Qed.
 Print Assumptions C08_step_commutes.
 
-(* 2. RevertToCheckpoint at full strength (formerly refuted by the code, F03b): the code's log walk gives
-   exactly what the reference gives by restoring the saved copy of the level. *)
+(* 2. RevertToCheckpoint, stated about the revert itself (on L1, the model of the code; a corollary of the refinement
+   and of the reference model's undo): after ANY operation sequence take a checkpoint, do any writes (values,
+   tombstones, flags, same-length overwrites of older values included) and reads, revert to that checkpoint: every
+   Get, snapshot Get, SelectValueHistory and bounded iteration in both directions answers what it answered when
+   the checkpoint was taken.  (Flags are deliberately not restored — undo0 — so GetFlags/Len/Size are not claimed;
+   reverts across staging operations are covered by C08_L1_refines_L0, not by this corollary.)
+   Before fix 6b4091a the code refuted this (F03/F03b). *)
 Theorem C08_revert_checkpoint :
-  forall ops : list op, run1 init1 ops = run0 init0 ops.
-Proof. exact C08_revert_checkpoint_proof. Qed.
+  forall pre writes, forallb plain_op writes = true ->
+    let s := exec1 init1 pre in
+    let i := length (reg1 s) in
+    let s' := exec1 init1 (pre ++ OCheckpoint :: writes ++ [ORevert i]) in
+    (forall k, obs1 (OGet k) s' = obs1 (OGet k) s) /\
+    (forall k, obs1 (OSnapGet k) s' = obs1 (OSnapGet k) s) /\
+    (forall k p, obs1 (OHist k p) s' = obs1 (OHist k p) s) /\
+    (forall rv lo hi, obs1 (OIter rv lo hi) s' = obs1 (OIter rv lo hi) s).
+Proof. exact revert_checkpoint_proof. Qed.
 Print Assumptions C08_revert_checkpoint.
+
+Example revert_checkpoint_nonvacuous :
+  forallb plain_op [OSet [120] [98; 98] []; OSet [121] [1] [SetKeyLocked]; OFlags [122] [SetPresumeKeyNotExists]; OGet [120]] = true.
+Proof. reflexivity. Qed.
 
 (* the old witness, now a regression: the revert undoes the same-length overwrite, also inside a stage *)
 Example f03b_fixed : run1 init1 f03b_witness = [RUnit; RNat 0; RUnit; RUnit; RVal (Some [97; 97])].
@@ -63,6 +79,9 @@ Theorem C08_snapshot_iter_is_base :
 Proof. exact C08_snapshot_iter_is_base_proof. Qed.
 Print Assumptions C08_snapshot_iter_is_base.
 
+(* (the first conjunct below — reverse = mirror image of forward — is DEFINITIONAL in L0, L1 and L2; that the code's
+   reverse iterators return the mirror image is established by the differential: iter 1 / siter 1 / iterf 1 against the
+   models, ART vs RBT, and rangel 1 on the raw leaves) *)
 (* 4. Bounded iteration, both directions, over ALL sequences (no ghost hypothesis): the forward result
    is strictly ascending, inside [lo,hi) (empty bound = unbounded), and contains exactly the table's
    keys that have a value; the reverse result is its mirror image. *)
@@ -77,7 +96,8 @@ Theorem C08_iter_bounds :
 Proof. exact C08_iter_bounds_proof. Qed.
 Print Assumptions C08_iter_bounds.
 
-(* what "inside the bounds" means *)
+(* what "inside the bounds" means — DEFINITIONAL: it only unfolds in_bounds into the two comparisons; kept as a
+   readable specification of the bounds, not as a claim about the code *)
 Theorem C08_in_bounds_spec : forall lo hi k,
   in_bounds lo hi k = true <-> (lo = [] \/ lex_cmp lo k <> Gt) /\ (hi = [] \/ lex_cmp k hi = Lt).
 Proof. exact C08_in_bounds_spec_proof. Qed.
